@@ -189,6 +189,8 @@ pub enum Mac {
     Revert(u64),
     Invalid,
     Stop,
+    /// SELFDESTRUCT with an empty stack
+    SdBare,
 }
 
 impl Mac {
@@ -205,7 +207,7 @@ impl Mac {
     }
     /// true if execution cannot continue past this macro
     pub fn terminal(&self) -> bool {
-        matches!(self, Mac::SelfDestruct(_) | Mac::SelfDestructSelf | Mac::Return(_) | Mac::Revert(_) | Mac::Invalid | Mac::Stop)
+        matches!(self, Mac::SelfDestruct(_) | Mac::SelfDestructSelf | Mac::Return(_) | Mac::Revert(_) | Mac::Invalid | Mac::Stop | Mac::SdBare)
     }
     pub fn emit(&self, a: Asm) -> Asm {
         match *self {
@@ -242,6 +244,7 @@ impl Mac {
             Mac::Revert(l) => a.push_u(l).push_u(0).op(op::REVERT),
             Mac::Invalid => a.op(op::INVALID),
             Mac::Stop => a.op(op::STOP),
+            Mac::SdBare => a.op(op::SELFDESTRUCT),
         }
     }
 }
